@@ -43,9 +43,13 @@ def gen_programs(prop, seed, n, tier, outfile, profile="sweep_profile"):
             H = run_case(k, hooks=getattr(mod, "hooks", None))
             if H.verdict != "quiescent":
                 return
-            if H.decisions < 5 or H.decisions > 900:
+            if H.decisions < 5:
                 return
+            if H.decisions > 900:
+                continue          # (this mode's baseline is too long to sweep; the other modes still are)
             ds[mode] = H.decisions
+        if not ds:
+            return
         out.append({"case": case, "decisions": ds})
 
     # seed corpus first: hand-written small programs every sweep of this property covers
@@ -65,9 +69,11 @@ def gen_programs(prop, seed, n, tier, outfile, profile="sweep_profile"):
                 k = dict(case)
                 k["schedule"] = dict(sched)
                 H = run_case(k, hooks=getattr(mod, "hooks", None))
-                if H.verdict != "quiescent" or H.decisions > 900:
+                if H.verdict != "quiescent":
                     ds = None
                     break
+                if H.decisions > 900:
+                    continue      # (this mode's baseline is too long to sweep; the other modes still are)
                 ds[mode] = H.decisions
             if ds:
                 out.append({"case": case, "decisions": ds})
